@@ -25,6 +25,10 @@ def tasks(ctx, quick):
         how = hows[i % len(hows)]
         add({"kind": "natd", "compound": ["seq", [[c, [z, a, q]] for z, a, q, c in comp]], "how": how,
              "value": rng.choice([1.0, 0.5, 2.16, 7.87, 19.3, 0.001, rng.uniform(0.01, 25)])})
+    # densities after an in-place change of the composition
+    for i in range(60 if quick else 600):
+        add({"kind": "natd", "compound": ["seq", [[c, [z, a, q]] for z, a, q, c in compound()]], "how": ["iadd_density", "iadd_natural"][i % 2],
+             "before": rng.choice([1.0, 2.5]), "other": ["dict", compound(1, 3)], "value": rng.choice([1.0, 0.5, 7.87, rng.uniform(0.01, 25)])})
     # single atoms default to the atom's density, compounds to none
     for kind in ("el", "iso", "ion", "isoion", "alias"):
         pool = uni[kind]
@@ -32,6 +36,22 @@ def tasks(ctx, quick):
             add({"kind": "natd", "compound": ["atom", a.z, a.a, a.q], "how": "none"})
     for i in range(40):
         add({"kind": "natd", "compound": ["dict", compound(2, 3)], "how": "none"})
+    # ... however the single atom is written: counted, grouped, repeated, nested
+    for i in range(60 if quick else 600):
+        a = rot.next()
+        at = [a.z, a.a, a.q]
+        shape = i % 5
+        if shape == 0:
+            comp = ["seq", [[3, [[2, at]]]]]
+        elif shape == 1:
+            comp = ["seq", [[2, at], [1, at]]]
+        elif shape == 2:
+            comp = ["seq", [[1, [[1, [[0.5, at]]]]]]]
+        elif shape == 3:
+            comp = ["str", "%s%s" % (rng.choice(["2", "3", "0.5"]), a.render() + rng.choice(["", "2"]))]
+        else:
+            comp = ["str", "(%s%s)%s" % (a.render(), rng.choice(["", "2"]), rng.choice(["3", "", "2"]))]
+        add({"kind": "natd", "compound": comp, "how": "none"})
     # substitution
     eb, isos = uni["eb"], uni["isos"]
     m = 500 if quick else 5000
